@@ -383,6 +383,22 @@ def rule_N6(ctx):
     r = RuleResult("N6", "exact guards: the number implementation decides 'no result' only on exact conditions - no tolerance test (|x| < eps, comparison with EPSILON) turns a representable result into None")
     roots, scope = number_scope(F)
     r.floor("GarnishNumber methods of SimpleNumber", len(roots), 17)
+    # equality and ordering of numbers are part of the number implementation too
+    extra = [g for g in F.fns.values() if g["crate"] == "garnish_lang_simple_data" and g["kind"] != "Closure" and (g.get("impl_self") or "").endswith("::SimpleNumber")
+             and (g.get("impl_trait") or "").startswith(("core::cmp::PartialEq", "core::cmp::PartialOrd"))]
+    work_ = list(extra)
+    files_ = set(g["span"].split(":")[0] for g in extra)
+    while work_:
+        g = work_.pop()
+        if g["path"] in scope:
+            continue
+        scope[g["path"]] = g
+        for b_ in g["mir"]["blocks"]:
+            t_ = b_["term"]
+            if t_["k"] == "Call":
+                h = F.fns.get(t_.get("resolved") or t_.get("def") or "")
+                if h is not None and h["span"].split(":")[0] in files_:
+                    work_.append(h)
     total = 0
     for p, f in sorted(scope.items()):
         sites, n = n6_sites(f)
